@@ -226,3 +226,63 @@ class Rerun(Unit):
 
         ctx.eng.explore(thunk)
         ctx.bounded.append({"unit": self.name, "bound": "two-route a->b->c history, 3 items"})
+
+
+class RerunRejects(Unit):
+    """Proof (arbitrary state): the two rejection paths of request_workflow_rerun touch nothing."""
+    name = "C.request_workflow_rerun.rejects"
+    functions = ["orquesta.conducting.WorkflowConductor.request_workflow_rerun"]
+    obligations = {
+        "C17.rerun.rejects_active_any_state": {"props": ["C17"], "text":
+            "for every workflow status that is not completed and every state: WorkflowIsActiveAndNotRerunableError is raised and nothing has been written or called before it"},
+        "C17.rerun.rejects_unknown_any_state": {"props": ["C17"], "text":
+            "for every completed status and every state: if some requested task execution is not in the pointer map, InvalidTaskRerunRequest is raised before anything is written"},
+    }
+    assumptions = ["the state is abstract: only the status and pointer-map membership (symbolic per request) are readable; any other access is reported as undecided, any write is recorded"]
+    trusted = ["z3 5.1", "pyvc interpreter"]
+
+    def splits(self, tier):
+        return [(s, n) for s in st.ALL_STATUSES for n in (0, 1, 2)]
+
+    def run_split(self, ctx, split):
+        status_c, nreq = split
+
+        def thunk(e):
+            e.register_input("status", status_c)
+            known = [e.register_input("known%d" % i, S.mk_bool("known%d" % i)) for i in range(nreq)]
+            reqs = [requests.TaskRerunRequest.new("task%d" % i, 0) for i in range(nreq)]
+            writes = []
+
+            def contains(eng, key):
+                for i, r in enumerate(reqs):
+                    if key == r.task_state_entry_id:
+                        return known[i]
+                raise S.Unsupported("membership of an unrelated key")
+
+            tasks = AbstractObj("tasks", __contains__=Stub("contains", contains))
+            ws = AbstractObj("workflow_state", status=status_c, tasks=tasks)
+            c = object.__new__(conducting.WorkflowConductor)
+            c.__dict__.update(dict(_workflow_state=ws, _outputs="OUT", _errors="ERR", spec=None, _graph=None))
+            raised = None
+            beyond = False
+            try:
+                e.call(conducting.WorkflowConductor.request_workflow_rerun, [c], {"task_requests": reqs})
+            except Raised as r:
+                raised = r
+            except S.Unsupported:
+                beyond = True     # past both rejection points: the abstract state is not readable there
+            untouched = not [t for t in e.path.trace if t[0] in ("setattr", "setitem", "list_append", "dict_pop", "list_remove")] \
+                and c._outputs == "OUT" and c._errors == "ERR"
+            info = {"status": status_c, "requests": nreq}
+            if status_c not in st.COMPLETED_STATUSES:
+                ctx.oblige("C17.rerun.rejects_active_any_state",
+                           raised is not None and raised.cls is exc.WorkflowIsActiveAndNotRerunableError and untouched, None, info)
+            else:
+                some_unknown = z3.Or([z3.Not(k.z) for k in known]) if known else z3.BoolVal(False)
+                got = raised is not None and raised.cls is exc.InvalidTaskRerunRequest
+                ctx.oblige("C17.rerun.rejects_unknown_any_state",
+                           z3.And(z3.Implies(some_unknown, z3.BoolVal(got and untouched and not beyond)),
+                                  z3.Implies(z3.BoolVal(got), some_unknown)), None, info)
+            ctx.canary()
+
+        ctx.eng.explore(thunk)
